@@ -199,7 +199,12 @@ class Match:
                 out.append(armind + "| %s -> %s" % (pat, body.stmts[0].text))
             elif same == 2 and not body.single() and bl and bl[0].startswith(sub) and bl[0][len(sub):len(sub) + 1] not in ("", "/", " ", "\t"):
                 out.append(prefix + bl[0][len(sub):])
-                out += bl[1:]
+                rest = bl[1:]
+                if len(body.stmts) == 1 and isinstance(body.stmts[0], Pipe) and ch.pick(2) == 1:
+                    # a pipeline as the arm's body: its continuation lines need not stand under its first token (which is mid-line), an
+                    # operator at the head of a line continues the expression wherever the line starts inside the arm
+                    rest = [(armind + "    " + l.lstrip()) if l.lstrip().startswith("|>") else l for l in rest]
+                out += rest
             else:
                 out.append(armind + "| %s ->" % pat + trail(ch))
                 out += bl
@@ -326,6 +331,9 @@ def docs():
         Fn("label (n:int)", B(If("n > 10", B(E("\"big\"")), B(E("\"none\"")), elifs=[("n > 0", B(E("\"small\"")))]))),
         Fn("describe (s:Shape)", B(Let("a", E("area s")), Let("l", E("label a")), E("$\"area={a} label={l}\""))),
         Fn("sumAll (xs:[]int)", B(E("slice.Fold (fun acc x -> acc + x) 0 xs"))),
+        Fn("dbl (n:int)", B(E("n * 2"))),
+        Fn("inc (n:int)", B(E("n + 1"))),
+        Fn("scale (s:Shape)", B(Match("s", [("Circle r", B(Pipe("dbl r", ["inc", "dbl"]))), ("Rect p", B(Pipe("p.X", ["dbl"]))), ("Empty", B(Pipe("0", ["inc"])))]))),
         Fn("main ()", B(Let("shapes", E("[Circle 2; Rect {X=3; Y=4}; Empty]")),
                         Pipe("shapes", ["slice.Map describe", "strings.Concat \", \"", "frt.Println"]),
                         Let("n", If("sumAll [1; 2; 3] > 5", B(E("1")), B(E("2")))),
